@@ -39,19 +39,32 @@ confirmed = meta.get('applies') and 'passed' in meta.get('tests_with', '') and '
 meta['confirmed'] = bool(confirmed)
 meta['checks'] = {}
 if confirmed:
-    rc, out = sh('git -C /repo status --porcelain')
-    assert out.strip() == '', 'repo not clean: ' + out
-    rc, out = sh('git -C /repo apply %s' % patch)
+    # run the checks against a scratch copy of /repo with the change applied (VERIF_REPO), so that other work
+    # using /repo at the same time is not disturbed; equivalent to `git -C /repo apply` + check + `git checkout -- .`
+    mr = '/verif/_work/repo_mut_%s' % name
+    sh('rm -rf %s' % mr)
+    os.makedirs('/verif/_work', exist_ok=True)
+    sh('cp -r /repo %s && rm -rf %s/.git' % (mr, mr))
+    rc, out = sh('patch -p1 < %s' % patch, cwd=mr)
+    assert rc == 0, out
     try:
         for c in [prop] + extra:
             t0 = time.time()
-            rc, out = sh('./check %s --tier quick' % c, cwd='/verif', timeout=3600)
+            rc, out = sh('VERIF_REPO=%s ./check %s --tier quick' % (mr, c), cwd='/verif', timeout=3600)
             lines = [l for l in out.split('\n') if l.startswith('VIOLATION') or l.startswith('KNOWN-FINDING')]
             meta['checks'][c] = {'exit': rc, 'wall_s': round(time.time() - t0), 'violations': [l for l in lines if l.startswith('VIOLATION')][:3],
                                  'nofail_only': all('no-failing-input-found' in l for l in lines if l.startswith('VIOLATION'))}
+            # keep one replay as documentation
+            for l in lines:
+                if l.startswith('VIOLATION') and 'replay=' in l:
+                    rp = l.split('replay=')[1].split()[0]
+                    if os.path.exists(rp):
+                        os.makedirs(os.path.join('/verif/seeded', name), exist_ok=True)
+                        shutil.copy(rp, os.path.join('/verif/seeded', name, 'replay-%s.json' % c))
+                    break
     finally:
-        sh('git -C /repo checkout -- .')
-    # restore evidence of the unchanged tree later (checks rewrite evidence files)
+        sh('rm -rf %s' % mr)
+        sh('rm -f /verif/replays/*.json')
 d = os.path.join('/verif/seeded', name)
 os.makedirs(d, exist_ok=True)
 for f in ('patch.diff', 'demo.py', 'notes.md'):
